@@ -344,6 +344,16 @@ def _pad_basic(
         ax_padding = _XGCM_BOUNDARY_KWARG_TO_XARRAY_PAD_KWARG[ax_padding]
         if ax_padding == "constant":
             kwargs = dict(constant_values=fill_value[ax])
+            # an integer (or boolean) array cannot hold e.g. a fractional fill value:
+            # numpy would silently truncate it, so promote the data first
+            if da_padded.dtype.kind in "iub":
+                fill = np.asarray(fill_value[ax])
+                with np.errstate(invalid="ignore"):
+                    representable = fill.astype(da_padded.dtype) == fill
+                if not representable:
+                    da_padded = da_padded.astype(
+                        np.result_type(da_padded.dtype, fill.dtype)
+                    )
         else:
             kwargs = dict()
         da_padded = da_padded.pad({dim: widths}, ax_padding, **kwargs)
